@@ -14,7 +14,7 @@ from .index import AnalysisError, get_index
 from .report import Run
 
 CHECKS = ['C01', 'C02', 'C03', 'C04', 'C05', 'C06', 'C07', 'C08', 'C09', 'C10', 'C11', 'C13',
-          'C14', 'C15', 'C16', 'C17', 'C24', 'C29', 'C33', 'C34', 'C35', 'C37', 'C38',
+          'C14', 'C15', 'C16', 'C17', 'C24', 'C29', 'C33', 'C34', 'C35', 'C37', 'C38', 'C39',
           'C40', 'C43']
 
 
